@@ -38,6 +38,10 @@ var switchCmd = &cobra.Command{
 			return errors.New("invalid create option format")
 		}
 
+		if client.Head.Commit == nil {
+			return fmt.Errorf("fatal: your current branch '%s' does not have any commits yet", client.Head.Reference)
+		}
+
 		// switch branch == update HEAD
 		if len(args) == 1 {
 			prevBranch := client.Head.Reference
